@@ -191,6 +191,22 @@ CONFIG = {
             "pin timeout 150 ms; a stalled pin must fail within 10 s; slow but steady progress (every 50 ms for 300 ms) must succeed",
         ],
     },
+    "C07": {
+        "pkg": "c07",
+        "max_procs": 12,
+        "legs": [
+            {"run": "^TestRPCPolicy$", "quick": (10, 8), "thorough": (300, 12)},
+            {"run": "^TestPubsubTrust$", "quick": (6, 4), "thorough": (100, 8)},
+        ],
+        "floors": {"rpc-policy": {"allowed-trusted-calls": 500, "refused-calls": 3000, "nontrivial": 10, "mode:raft": 3}, "pubsub-trust": {"nontrivial": 5}},
+        "level": "exploration",
+        "assumptions": [
+            QUIC,
+            "gorpc decides authorisation before decoding the argument: calls carry an undecodable argument so that an authorised call ends in a decoding error without running the handler; the observable is the error class",
+            "only permissions wider than the frozen table are violations; an endpoint made more restrictive is not reported",
+            "pubsub leg: the liveness witness T does not trust A, so A's updates cannot reach B re-signed inside T's DAG",
+        ],
+    },
     "C08": {
         "pkg": "c08",
         "regress": "^TestRegress",
